@@ -749,4 +749,190 @@ class LargeNKind(Kind):
             yield dict(case, runs=merged, splits=[case['n']])
 
 
-KINDS = [CpaKind(), CpaAltKind(), DpaKind(), LargeNKind()]
+# ----------------------------------------------------------------------------------------------- count boundaries on words / samples
+
+WIDE_WORDS = [([63], 2), ([7, 9], 1), ([64], 3), ([4, 4, 4], 1), ([65], 2), ([5, 13], 3), ([100], 1), ([5, 20], 2), ([2, 5, 10], 1),
+              ([127], 2), ([128], 1), ([2, 64], 2), ([129], 1), ([3, 43], 2), ([255], 1), ([3, 5, 17], 2), ([256], 2), ([16, 16], 1),
+              ([257], 3), ([1, 257], 1), ([300], 1), ([3, 100], 2), ([5, 6, 10], 1), ([1025], 1), ([25, 41], 2), ([5, 5, 41], 1)]
+WIDE_SAMPLES = [([2], 63), ([3], 64), ([1], 65), ([2, 2], 257), ([5], 1025), ([65], 65), ([100], 64), ([5, 13], 129)]
+
+
+def _rle_layout(rng, total, ncols):
+    """`total` positions filled with distinct-column indices 0..ncols-1 as runs [(index, repetitions)]; every index occurs,
+    the runs are short near both ends (boundaries are where indexing slips)."""
+    head = [[i % ncols, 1] for i in range(min(ncols, total))]
+    rest = total - len(head)
+    runs = list(head)
+    tail = []
+    for i in range(min(3, rest)):
+        tail.append([rng.randrange(ncols), 1])
+    rest -= len(tail)
+    while rest > 0:
+        c = min(rest, rng.choice([1, 2, 5, 17, 40, 64, 200]))
+        runs.append([rng.randrange(ncols), c])
+        rest -= c
+    return runs + tail
+
+
+def _expand_layout(runs):
+    out = []
+    for i, c in runs:
+        out.extend([i] * c)
+    return out
+
+
+def make_wide(rng, kind, dims, S, prec):
+    n = rng.randint(4, 12)
+    ks, kw = rng.randint(3, 5), rng.randint(3, 5)
+    scols = [[rng.randint(0, 12) for _ in range(n)] for _ in range(ks)]
+    if kind == 'dpa':
+        wcols = [[rng.randint(0, 1) for _ in range(n)] for _ in range(kw)]
+        wcols[rng.randrange(kw)] = [rng.choice([0, 1])] * n            # an empty bit class somewhere
+    else:
+        wcols = [[rng.randint(0, 12) for _ in range(n)] for _ in range(kw)]
+        wcols[rng.randrange(kw)] = [rng.randint(0, 12)] * n            # a constant word somewhere
+    scols[rng.randrange(ks)] = [rng.randint(0, 12)] * n               # a constant sample somewhere
+    k = rng.choice([1, 2])
+    return {'kind': kind, 'precision': prec, 'dims': dims, 'n': n, 'scols': scols, 'wcols': wcols,
+            'slayout': _rle_layout(rng, S, ks), 'wlayout': _rle_layout(rng, _prod(dims), kw),
+            'splits': [n] if k == 1 else [n // 2, n - n // 2], 'order': rng.choice(['C', 'C', 'F']),
+            'picks': [[rng.random(), rng.random()] for _ in range(40)]}
+
+
+class WideKind(Kind):
+    name = 'wide'
+    header = HDR
+    case_type = 'wide_case'
+    check_fn = 'wide_check'
+    explain_fn = 'wide_explain'
+    shard = 8
+    rule = ('the three classes on few traces (n = 4..12, small integers: float sums exact) with total word counts 63, 64, 65, 100, 127, '
+            '128, 129, 255, 256, 257, 300, 1025 (1-D and multi-dimensional word shapes with that product) and sample counts 63, 64, 65, '
+            '257, 1025, 129; the columns are 3-5 distinct sample columns and 3-5 distinct word columns (one constant each) laid out '
+            'run-length encoded; validated inside Coq against the spec: first and last occurrence of every pair of distinct columns, the '
+            'last 3 words x last / first / sampled samples, the last 3 samples x last / first / sampled words, 40 sampled entries; every '
+            'other entry must be bit-identical (NaN pattern included) to the validated entry built from the same pair of columns')
+
+    def gen(self, rng, tier):
+        reps = 1 if tier == 'quick' else 3
+        for rep in range(reps):
+            i = 0
+            for kind in ('cpa', 'cpa_alt', 'dpa'):
+                for dims, S in WIDE_WORDS + WIDE_SAMPLES:
+                    i += 1
+                    yield make_wide(rng, kind, list(dims), S, 'float64' if (i + rep) % 2 else 'float32')
+
+    def run(self, case):
+        import warnings
+        import scared
+        n, dims = case['n'], case['dims']
+        sidx, widx = _expand_layout(case['slayout']), _expand_layout(case['wlayout'])
+        S, D = len(sidx), len(widx)
+        if D != _prod(dims):
+            raise HarnessError('C03 harness: word layout does not fill the word shape')
+        t_rows = [[case['scols'][sidx[j]][t] for j in range(S)] for t in range(n)]
+        d_rows = [[case['wcols'][widx[w]][t] for w in range(D)] for t in range(n)]
+        tdt = 'uint8' if case['kind'] == 'dpa' else 'int16'
+        traces = _reorder(np.array(t_rows, dtype=tdt), case['order'])
+        data = _reorder(np.array([_nest(r, dims) for r in d_rows], dtype='uint8'), case['order'])
+        if list(data.shape) != [n] + dims or _flat(data.tolist()) != _flat(d_rows) or _flat(traces.tolist()) != _flat(t_rows):
+            raise HarnessError('C03 harness: arrays do not hold the laid-out columns')
+        d = getattr(scared, CLS[case['kind']])(precision=case['precision'])
+        with warnings.catch_warnings():
+            warnings.simplefilter('ignore')
+            pos = 0
+            for b in case['splits']:
+                d.update(traces[pos:pos + b], data[pos:pos + b])
+                pos += b
+            r = d.compute()
+        shape = list(r.shape)
+        if shape != dims + [S]:
+            return {'shape': shape, 'entries': [], 'mismatch': None, 'processed': int(d.processed_traces)}
+        flat = np.asarray(_flat(r.tolist()), dtype='float64').reshape(D, S)     # D rows of S entries, in nested-list (C) order
+        # representatives: first / last occurrence of each pair of distinct columns, the last rows / columns, sampled entries
+        pos_of = {}
+        for w in range(D):
+            for s_ in range(S):
+                key = (widx[w], sidx[s_])
+                if key not in pos_of:
+                    pos_of[key] = [(w, s_), (w, s_)]
+                else:
+                    pos_of[key][1] = (w, s_)
+        chosen = []
+        for first, last in pos_of.values():
+            chosen += [first, last]
+        col_sample = sorted({0, S - 1, max(0, S - 2), max(0, S - 3)} | {int(p[1] * S) for p in case['picks'][:8]})
+        row_sample = sorted({0, D - 1, max(0, D - 2), max(0, D - 3)} | {int(p[0] * D) for p in case['picks'][:8]})
+        for w in range(max(0, D - 3), D):
+            chosen += [(w, s_) for s_ in col_sample]
+        for s_ in range(max(0, S - 3), S):
+            chosen += [(w, s_) for w in row_sample]
+        chosen += [(int(p[0] * D), int(p[1] * S)) for p in case['picks']]
+        seen, entries = set(), []
+        for w, s_ in chosen:
+            if (w, s_) not in seen:
+                seen.add((w, s_))
+                entries.append([w, s_, float(flat[w, s_])])
+        # every entry must be bit-identical (NaN = NaN) to the first entry built from the same pair of distinct columns
+        mismatch = None
+        for w in range(D):
+            ref = np.array([flat[pos_of[(widx[w], i)][0]] if (widx[w], i) in pos_of else np.nan for i in sidx])
+            row = flat[w]
+            bad = ~((row == ref) | (np.isnan(row) & np.isnan(ref)))
+            if bad.any():
+                s_ = int(np.argmax(bad))
+                mismatch = {'word': w, 'sample': s_, 'value': float(row[s_]), 'same_columns_as': list(pos_of[(widx[w], sidx[s_])][0]),
+                            'whose_value': float(ref[s_])}
+                break
+        return {'shape': shape, 'entries': entries, 'mismatch': mismatch, 'processed': int(d.processed_traces), 'dtype': str(r.dtype)}
+
+    def coq(self, case, obs):
+        shape, entries = (obs.get('shape', []), obs.get('entries', [])) if 'raised' not in obs else ([], [])
+        lay = lambda runs: C.coq_list(runs, lambda r: '(%s, %d%%positive)' % (C.coq_nat(r[0]), r[1]))
+        return ('{| w_kind := %s; w_prec := %s; w_dims := %s; w_scols := %s; w_wcols := %s; w_slayout := %s; w_wlayout := %s; '
+                'w_obs_shape := %s; w_obs := %s |}' % (
+                    COQ_KIND[case['kind']], 'F32' if case['precision'] == 'float32' else 'F64', C.coq_list(case['dims'], C.coq_nat),
+                    C.coq_list2(case['scols'], C.coq_z), C.coq_list2(case['wcols'], C.coq_z), lay(case['slayout']), lay(case['wlayout']),
+                    C.coq_list(shape, C.coq_nat),
+                    C.coq_list(entries, lambda e: '(%s, %s, %s)' % (C.coq_nat(e[0]), C.coq_nat(e[1]), core.float_to_coq(e[2])))))
+
+    def oracle(self, case, obs):
+        if 'raised' in obs:
+            return f'{CLS[case["kind"]]} update/compute raised {obs["raised"]}: {obs["msg"]}'
+        if obs['processed'] != case['n']:
+            return f'processed_traces = {obs["processed"]} after {case["n"]} traces'
+        if obs['mismatch']:
+            m = obs['mismatch']
+            return (f'entry (word {m["word"]}, sample {m["sample"]}) = {m["value"]!r} differs from entry {tuple(m["same_columns_as"])} = '
+                    f'{m["whose_value"]!r} although both are computed from identical word and sample columns')
+        return None
+
+    def nontrivial(self, case, obs):
+        return any(e[2] == e[2] for e in obs.get('entries', []))
+
+    def features(self, case, obs):
+        return {'class': case['kind'], 'precision': case['precision'], 'words': _prod(case['dims']), 'ndim_words': len(case['dims']),
+                'samples': len(_expand_layout(case['slayout'])), 'validated_entries': len(obs.get('entries', []))}
+
+    def tags(self, case, obs):
+        return ['wide', f'wide_{case["kind"]}']
+
+    def sample(self, case, obs):
+        return {'case': case, 'observed': dict(obs, entries=obs.get('entries', [])[:6])}
+
+    def shrink(self, case):
+        if len(case['dims']) > 1:
+            yield dict(case, dims=[_prod(case['dims'])])
+        if len(case['splits']) > 1:
+            yield dict(case, splits=[case['n']])
+        for key in ('wlayout', 'slayout'):            # shorter layouts (1-D word shape only), keeping every distinct column
+            runs = case[key]
+            if key == 'wlayout' and len(case['dims']) > 1:
+                continue
+            for i, (c, k) in enumerate(runs):
+                if k > 1:
+                    new = runs[:i] + [[c, k // 2]] + runs[i + 1:]
+                    yield dict(case, **{key: new}, **({'dims': [sum(r[1] for r in new)]} if key == 'wlayout' else {}))
+
+
+KINDS = [CpaKind(), CpaAltKind(), DpaKind(), LargeNKind(), WideKind()]
